@@ -15,6 +15,9 @@ import_repo()
 from pynetdicom2 import dulprovider, fsm, pdu  # noqa: E402
 
 
+SPIN_LIMIT = 500      # polls of the transport within ONE iteration of run(): beyond this the loop is spinning
+
+
 class Hang(BaseException):
     """A blocking call that nothing can ever satisfy (no data, peer still open)."""
 
@@ -38,12 +41,14 @@ class FakeSocket(object):
         self.rx = bytearray()
         self.peer_fin = False
         self.peer_reset = False
+        self.write_dead = False       # the peer no longer receives: writes fail (EPIPE), reads are unaffected
         self.closed = False
         self.sent = []            # list of bytes objects passed to sendall
         self.recv_log = []        # (n requested, n returned or 'eof' / 'reset')
         self.connected = None
         self.blocking_reads = 0
         self.failed_sends = 0
+        self.polls = 0            # reads / select calls since the last scheduling point (reset by Stepped.step)
 
     # -- API used by the library
     def recv(self, n):
@@ -58,6 +63,9 @@ class FakeSocket(object):
             self.recv_log.append((n, len(data)))
             return data
         if self.peer_fin:
+            self.polls += 1
+            if self.polls > SPIN_LIMIT:
+                raise Hang('recv() polled %d times at end of stream without returning to the event loop' % self.polls)
             self.recv_log.append((n, 'eof'))
             return b''
         self.blocking_reads += 1
@@ -66,9 +74,9 @@ class FakeSocket(object):
     def sendall(self, data):
         if self.closed:
             raise OSError(9, 'Bad file descriptor')
-        if self.peer_reset:
+        if self.peer_reset or self.write_dead:
             self.failed_sends += 1
-            raise OSError(32, 'Broken pipe')          # the connection has been reset: writes fail
+            raise OSError(32, 'Broken pipe')          # the connection has been reset / the peer is gone: writes fail
         self.sent.append(bytes(data))
 
     send = sendall
@@ -111,6 +119,10 @@ class Env(object):
             for s in r:
                 if isinstance(s, FakeSocket) and s.closed:
                     raise ValueError('file descriptor cannot be a negative integer (-1)')    # what select does with a closed socket
+                if isinstance(s, FakeSocket):
+                    s.polls += 1
+                    if s.polls > SPIN_LIMIT:
+                        raise Hang('select() called %d times within one iteration of the event loop' % s.polls)
             ready = [s for s in r if isinstance(s, FakeSocket) and s.readable()]
             return ready, [], []
 
@@ -173,6 +185,8 @@ class Stepped(dulprovider.DULServiceProvider):
     def step(self):
         """One iteration of the unmodified run().  Returns None, or the exception that killed the loop."""
         self._budget = 1
+        if isinstance(self.dul_socket, FakeSocket):
+            self.dul_socket.polls = 0
         b0 = self._boundaries
         try:
             self.run()
